@@ -16,7 +16,7 @@ TRACE_ALL = "planted,linear,prio,contra,malformed,caps,collapsed"
 
 PROPS = {
     "C12": {
-        "modules": ["Ezpz.Proofs.Assembly", "Ezpz.Proofs.AssemblyPerm", "Ezpz.Proofs.Rename", "Ezpz.Proofs.EquivHelpers", "Ezpz.Real.Equivariance", "Ezpz.Real.EquivarianceRenumber", "Ezpz.Proofs.Relabel", "Ezpz.Real.EquivarianceEntry", "Ezpz.Real.GaussNewton", "Ezpz.Real.StopTests", "Ezpz.Properties.C10", "Ezpz.Real.EquivarianceDof"],
+        "modules": ["Ezpz.Proofs.Assembly", "Ezpz.Proofs.AssemblyPerm", "Ezpz.Proofs.Rename", "Ezpz.Proofs.EquivHelpers", "Ezpz.Real.Equivariance", "Ezpz.Real.EquivarianceRenumber", "Ezpz.Proofs.Relabel", "Ezpz.Real.EquivarianceEntry", "Ezpz.Real.GaussNewton", "Ezpz.Real.StopTests", "Ezpz.Properties.C10", "Ezpz.Real.EquivarianceDof", "Ezpz.Real.EquivarianceExamples"],
         "suites": [
             {"suite": "kernels", "quick": (750,), "thorough": (10000,)},
             {"suite": "trace", "quick": (2000, "planted,linear,prio,contra,collapsed,pinned,large"), "thorough": (18000, "planted,linear,prio,contra,caps,conflict,collapsed,pinned,large")},
@@ -25,7 +25,7 @@ PROPS = {
             {"bin": "oracle_c12", "min_stats": {"systems": 0.5, "request_permutations": 2.36, "renumberings": 0.948, "outcomes_compared": 3.32}, "quick": ("{seed}", "4000"), "thorough": ("{seed}", "20000")},
         ],
         "partial": ["solve_equivariant is proved per priority level over the reals (solveInner_perm, solveInner_renumber, with newtonStep/newtonLoop versions): reordering the requests gives the same values, iterations, solved priority and under-constrained set, the same unsatisfied requests and warnings up to order (equal after sorting: unsatisfied_sorted_eq); renumbering the variables gives the reordered values and otherwise the identical outcome; the solver hypotheses (RowPermSolve, ColPermSolve) are shown to hold for exact total solvers (rowPermSolve_of_exact, colPermSolve_of_exact via step_row_perm / step_col_perm / step_unique). Not invariant, and stated so (solveInner_perm_invalid): which request a MissingGuess error names when several requests have missing guesses (first in list order). At the public entry point (solveWithPriority_perm, solveWithPriority_renumber; solve without analysis): request ids are pure labels (solveInner_relabel_cases), enumerate of a permuted list is a permutation of the relabelled entries, the levels are equal, so both runs take the same decisions level by level: same values, iterations and solved priority, unsatisfied requests and warnings mapped through the position bijection (up to order), or the same failure",
-                    "with analysis (Real/EquivarianceDof.lean): the under-constrained list is a function of the kernel of the analysed Jacobian only (dof_same_kernel, spectrum gap needed, participation gap not), hence equal under request permutation (dof_row_perm, solveInner_perm_withAnalysis, solveWithPriority_perm_withAnalysis) and mapped through the renumbering under variable renumbering (dof_col_perm, solveInner_renumber_withAnalysis, solveWithPriority_renumber_withAnalysis with the relation RenumEqDof; the older RenumEq demands equal lists and is only right without analysis); the SVD contract is assumed for the two Jacobians actually analysed (SvdGood), not for all matrices",
+                    "with analysis (Real/EquivarianceDof.lean): the under-constrained list is a function of the kernel of the analysed Jacobian only (dof_same_kernel, spectrum gap needed, participation gap not), hence equal under request permutation (dof_row_perm, solveInner_perm_withAnalysis, solveWithPriority_perm_withAnalysis) and mapped through the renumbering under variable renumbering (dof_col_perm, solveInner_renumber_withAnalysis, solveWithPriority_renumber_withAnalysis with the relation RenumEqDof; the older RenumEq demands equal lists and is only right without analysis); the SVD contract is assumed for the two Jacobians actually analysed (SvdGood), not for all matrices; renumber_example_with_step and perm_example_with_step (Real/EquivarianceExamples.lean) instantiate both entry-point theorems on runs that SUCCEED after a genuine Newton step with the code's damping 1e-9 and an exact solver, and derive the second run's values / iterations / under-constrained list from the theorem's relation, not by recomputation",
                     "'up to numerical noise': summation order inside faer changes with row / column order; left to the oracle on the real code (known finding F16: on inconsistent rank-deficient systems one order converges and another does not)"],
         "assumptions": ["the LU answer is a parameter; over the reals it is characterised by IsStep, which is what the permutation theorems are about"],
         "rule": "planted and linear systems; all request permutations for <= 4 requests, random samples otherwise; random variable renumberings with the guess list reordered to match; verdicts, solved priority and under-constrained sets must match exactly through the permutation, values of constrained variables within 1e-6*scale, under-constrained ones within 1e-2*scale with every constraint still satisfied",
@@ -90,7 +90,7 @@ PROPS = {
         "rule": "planted and linear systems with 0..15 constraints and 2..40 variables (incl. pinned, free-floating, rank-deficient but over-determined, free variables hidden behind equalities, no constraints, and multi-priority lists whose lower level solves but stays unsatisfied so that the previous level is what is returned): solve_analysis on the real code vs numpy null space of a finite-difference Jacobian at the returned point; cases without a clear gap in the singular values or participations are excluded by the oracle",
     },
     "C02": {
-        "modules": ["Ezpz.Properties.C02", "Ezpz.Real.GaussNewton", "Ezpz.Real.GaussNewton3", "Ezpz.Real.LocalContraction", "Ezpz.Real.ContinuityGN", "Ezpz.Real.LinearEntry", "Ezpz.Real.FDerivKinds", "Ezpz.Real.FDerivEntry", "Ezpz.Real.Fixes", "Ezpz.Real.FDerivKinds2", "Ezpz.Real.FDerivEntry2", "Ezpz.Real.FDerivLoop"],
+        "modules": ["Ezpz.Properties.C02", "Ezpz.Real.GaussNewton", "Ezpz.Real.GaussNewton3", "Ezpz.Real.LocalContraction", "Ezpz.Real.ContinuityGN", "Ezpz.Real.LinearEntry", "Ezpz.Real.FDerivKinds", "Ezpz.Real.FDerivEntry", "Ezpz.Real.Fixes", "Ezpz.Real.FDerivKinds2", "Ezpz.Real.FDerivEntry2", "Ezpz.Real.FDerivLoop", "Ezpz.Real.FDerivKinds3", "Ezpz.Real.FDerivEntry3", "Ezpz.Real.FDerivLoop3"],
         "suites": [
             {"suite": "kernels", "quick": (750,), "thorough": (10000,)},
             {"suite": "trace", "quick": (2000, "planted,linear,prio,collapsed,pinned,large"), "thorough": (18000, "planted,linear,prio,caps,disparity,collapsed,pinned,large")},
@@ -98,7 +98,7 @@ PROPS = {
         "oracles": [
             {"bin": "oracle_c02", "min_stats": {"checked": 0.35, "with_short_feature": 0.0487, "fully_pinned": 0.1, "full_rank": 0.04}, "quick": ("{seed}", "15000"), "thorough": ("{seed}", "200000")},
         ],
-        "partial": ["convergence of the f64 iteration (success, iteration count <= 8, landing within 1.5x) is NOT proved: the theorems give the loop's anatomy (every round is residual test -> damped step of the Jacobian at the current point -> step test), existence/uniqueness/descent of the exact step, monotone approach on consistent linear systems, and the abstract contraction argument with the constant 1.5; that a given planted system satisfies the contraction hypothesis is left to the oracle on the real code; the exact-arithmetic statement is now instantiated for the MODEL's own assembled residual and Jacobian (Real/FDerivEntry.lean): for request lists made of every kind except PointArcCoincident (Real/FDerivKinds.lean: the guard-free kinds with no hypothesis, distance / linesEqualLength / arcRadius with points strictly farther apart than EPS; Real/FDerivKinds2.lean: the three point-line distances, lineTangentToCircle, symmetric, arcLength, circleTangentToCircle, explicit angles and arcAngle, each under the hypothesis that every guard of its residual and Jacobian kernel is strictly inactive at x* and, for the angle kinds, that x* is off the atan2 cut - RegularAt2) the assembled residual rOf is Frechet differentiable at x* with derivative the model's Jacobian JOf, JOf is continuous there (hasFDerivAt_rOf_regular), one continuing round of the model's newtonStep with an exact solver IS the map x -> x - (J^T J + lambda I)^-1 J^T r(x) (newtonStep_eq_gnMap, all kinds), and hence for a zero x* with sigma_min(J)^2 >= c > lambda the CONTINUING rounds the model's loop executes from within rho of x* halve the error and stay within 1.5|x0 - x*| of the guess (model_newtonRun_C02, model_newtonRun_C02_2; four concrete non-linear systems meet the hypotheses of the gnMap form with lambda = 1e-9; and - Real/FDerivLoop.lean - for the RESULT of the loop, including the extra step of a step-size return: model_newtonLoop_C02 (|res.values - x*| <= (1/2)^(iterations - k) |x - x*| and |res.values - x| <= 1.5 |x - x*|), model_solveInner_C02 and model_solve_C02_single_level (the same two bounds for o.finalValues relative to the guesses at the public entry point with one priority level; loop_C02_example_with_step is a run with a genuine step); not lifted to several priority levels; PointArcCoincident (three gated rows) is not covered by the Frechet bridge, and nothing here is about f64",
+        "partial": ["convergence of the f64 iteration (success, iteration count <= 8, landing within 1.5x) is NOT proved: the theorems give the loop's anatomy (every round is residual test -> damped step of the Jacobian at the current point -> step test), existence/uniqueness/descent of the exact step, monotone approach on consistent linear systems, and the abstract contraction argument with the constant 1.5; that a given planted system satisfies the contraction hypothesis is left to the oracle on the real code; the exact-arithmetic statement is now instantiated for the MODEL's own assembled residual and Jacobian (Real/FDerivEntry.lean): for request lists made of every kind (PointArcCoincident: see the end of this note) (Real/FDerivKinds.lean: the guard-free kinds with no hypothesis, distance / linesEqualLength / arcRadius with points strictly farther apart than EPS; Real/FDerivKinds2.lean: the three point-line distances, lineTangentToCircle, symmetric, arcLength, circleTangentToCircle, explicit angles and arcAngle, each under the hypothesis that every guard of its residual and Jacobian kernel is strictly inactive at x* and, for the angle kinds, that x* is off the atan2 cut - RegularAt2) the assembled residual rOf is Frechet differentiable at x* with derivative the model's Jacobian JOf, JOf is continuous there (hasFDerivAt_rOf_regular), one continuing round of the model's newtonStep with an exact solver IS the map x -> x - (J^T J + lambda I)^-1 J^T r(x) (newtonStep_eq_gnMap, all kinds), and hence for a zero x* with sigma_min(J)^2 >= c > lambda the CONTINUING rounds the model's loop executes from within rho of x* halve the error and stay within 1.5|x0 - x*| of the guess (model_newtonRun_C02, model_newtonRun_C02_2; four concrete non-linear systems meet the hypotheses of the gnMap form with lambda = 1e-9; and - Real/FDerivLoop.lean - for the RESULT of the loop, including the extra step of a step-size return: model_newtonLoop_C02 (|res.values - x*| <= (1/2)^(iterations - k) |x - x*| and |res.values - x| <= 1.5 |x - x*|), model_solveInner_C02 and model_solve_C02_single_level (the same two bounds for o.finalValues relative to the guesses at the public entry point with one priority level; loop_C02_example_with_step is a run with a genuine step); not lifted to several priority levels; PointArcCoincident is covered since Real/FDerivKinds3.lean (StrictPAC: both distances of row 0 strictly above EPS - with equality the Jacobian row is NOT continuous, machine-checked witness pacB_not_kindC1 - and rows 1, 2 strictly inside the gate, or strictly outside with non-zero orientation and cross product; automatically true at a zero of the residual with radius > EPS, strictPAC_of_r0_zero): RegularAt3 / kindC1_of_regular3 cover all 23 kinds and model_newtonLoop_C02_3, model_solveInner_C02_3, model_solve_C02_single_level_3 (Real/FDerivLoop3.lean) are the loop / entry-point statements for every kind (non-vacuity: pac1, a fully determined system with a PointArcCoincident request); nothing here is about f64",
                     "gauss_newton_local_C02 (LocalContraction.lean) proves the whole chain for the exact iteration: error map differentiable at x* with Jacobian J, sigma_min(J)^2 >= c > lambda > 0, iteration operator continuous at x* => a ball around x* on which the error halves every round and no iterate is farther from the guess than 1.5x; continuity of the iteration operator is derived from continuity of the Jacobian at x* (gauss_newton_local_C02_of_continuous_jacobian); rank-deficient ('not pinned down') systems are outside it: the defect operator is the identity on ker J (damped_defect_on_kernel), which is the regime of known finding F15",
                     "under-determined planted systems do land farther than 1.5x from the guess in about 0.02% of the cases on the real code (known finding F15)"],
         "assumptions": ["the LU answer is a parameter of the loop theorems; over the reals it is characterised by IsStep (existence and uniqueness proved), and held to it on recorded traces by the step certificate"],
@@ -238,7 +238,7 @@ PROPS = {
         "rule": "mutation stream over generated valid texts (deleted / duplicated / renamed labels, swapped sections, truncation, inserted characters incl. non-ASCII, extra / missing guesses, undeclared references, sqrt nesting, odd numbers, noise) compared exactly between the real front-end and the Lean model; strictness and no-silent-drop checked on the real code",
     },
     "C13": {
-        "modules": ["Ezpz.Properties.C13", "Ezpz.Real.Deriv", "Ezpz.Real.DerivA", "Ezpz.Real.DerivB", "Ezpz.Real.DerivC", "Ezpz.Real.DerivD", "Ezpz.Real.DerivE"],
+        "modules": ["Ezpz.Properties.C13", "Ezpz.Real.Deriv", "Ezpz.Real.DerivA", "Ezpz.Real.DerivB", "Ezpz.Real.DerivC", "Ezpz.Real.DerivD", "Ezpz.Real.DerivE", "Ezpz.Real.FDerivKinds", "Ezpz.Real.FDerivKinds2", "Ezpz.Real.FDerivKinds3"],
         "suites": [
             {"suite": "kernels", "quick": (1000,), "thorough": (15000,)},
         ],
@@ -246,7 +246,7 @@ PROPS = {
             {"bin": "oracle_c13", "min_stats": {"systems": 13.5, "jacobian_entries_checked": 74.3, "aliased_cases": 4.1}, "quick": ("{seed}", "750"), "thorough": ("{seed}", "5000")},
         ],
         "partial": [
-                    "completeness over the 23 kinds and their rows is by enumeration (one deriv_* theorem per kind and row, listed in DESIGN 11.2), not a single theorem quantified over kinds; DerivRow is the derivative along coordinate lines (what 'sensitivity with respect to each variable' means), not a Frechet derivative of the assembled map",
+                    "completeness over the 23 kinds and their rows is by enumeration (one deriv_* theorem per kind and row, listed in DESIGN 11.2), not a single theorem quantified over kinds; DerivRow is the derivative along every line through the configuration (what 'sensitivity with respect to each variable' means, and more); the single statement quantified over all 23 kinds is the Frechet one, kindC1_of_regular3 (Real/FDerivKinds3.lean): at a configuration where the kind's guards are strictly inactive (RegularAt3) every Jacobian row of the model is the Frechet derivative of the corresponding residual slot and is continuous there",
                     "inside the coarse guard bands (e.g. Symmetric |pq| < 0.1, LineTangentToCircle |v| < 0.01) the linearisation is switched off while the residual is live: excluded by the property's own 'away from the documented degeneracies'"],
         "assumptions": ["derivative theorems are about exact real arithmetic of the model's formulas; the f64 code is tied to the model by corr-kernels (all aliasing patterns)"],
         "rule": "corr-kernels: per shape, ids from small pools so that aliasing patterns occur, values over scales 1e-2..1e3 plus degenerate / special / out-of-range streams; oracle: 4th-order central differences with Richardson extrapolation of the real residual vs the real jacobian_rows per shape, row and declared variable",
